@@ -1,10 +1,17 @@
 mod c01;
 mod c22;
 mod c26;
+mod common;
+mod dev;
 
 fn main() {
     let args: Vec<String> = std::env::args().skip(1).collect();
     let id = args.first().cloned().unwrap_or_default();
+    if id == "DEV" {
+        // developer entry point (not a check): see dev.rs
+        dev::main(&args[1..]);
+        return;
+    }
     vcore::quiet_panics();
     let ctx = vcore::Ctx::new(&id, &args[1.min(args.len())..]);
     match id.as_str() {
